@@ -4,17 +4,7 @@
                    parses it, writes the value, reads the written text back
      u <hex raw>   raw attribute text to be unescaped by the reader
    Output: model <TAB> spec <TAB> class  (see harness/hxml/src/main.rs for the observation format). *)
-From ZV Require Import Base.Bytes Base.Res C34.Model.
-From ZV Require C06.Model C10.Model.
-
-Definition sigT := C06.Model.tsig.
-Definition sig_parse (b : bytes) : option sigT :=
-  match C06.Model.from_str false b with Ok t => Some t | _ => None end.
-Definition sig_show (t : sigT) : bytes := C06.Model.show t.
-
-Definition rd := of_node sigT sig_parse C10.Model.validate_member C10.Model.validate_interface
-                         C10.Model.validate_property (fun v => Ok v).
-Definition wr := to_tree sigT sig_show.
+From ZV Require Import Base.Bytes Base.Res C34.Model C34.Spec C34.Inst.
 
 (* ---- token form ---- *)
 Definition spc : bytes := [sp].
@@ -95,17 +85,7 @@ Fixpoint d_node (n : node sigT) : xml :=
   | Node _ name ifs ns => Elem (B "node") (oattr (B "name") name) (map d_iface ifs ++ map d_node ns)
   end.
 
-(* ---- the known-deviation class: some Option of the document is None ---- *)
-Definition arg_has_none (a : arg sigT) : bool :=
-  match ar_name _ a, ar_dir _ a with Some _, Some _ => false | _, _ => true end.
-Definition iface_has_none (i : iface sigT) : bool :=
-  existsb (fun m => existsb arg_has_none (m_args _ m)) (i_methods _ i) ||
-  existsb (fun m => existsb arg_has_none (s_args _ m)) (i_signals _ i).
-Fixpoint has_none (n : node sigT) : bool :=
-  match n with
-  | Node _ name ifs ns =>
-      match name with None => true | Some _ => false end || existsb iface_has_none ifs || existsb has_none ns
-  end.
+(* the known-deviation class is C34.Spec.node_none: some Option of the document is None *)
 
 Definition run_x (ws : list bytes) : outp :=
   match read_toks ws [] None with
@@ -119,7 +99,7 @@ Definition run_x (ws : list bytes) : outp :=
           {| o_model := B "OK:" ++ bool_tok same ++ bool_tok same ++ B "T;" ++ toks (d_node d) ++ B ";" ++ toks w ++
                         B ";" ++ hex_of_bytes (print w);
              o_spec := spec;
-             o_class := if has_none d then B "none_option" else dash |}
+             o_class := if node_none sigT d then B "none_option" else dash |}
       | Err _ => {| o_model := B "ERR"; o_spec := spec; o_class := dash |}
       | Panic _ => {| o_model := B "PANIC"; o_spec := spec; o_class := dash |}
       end
